@@ -27,6 +27,7 @@ type routingFocus struct {
 }
 
 type routingRun struct {
+	curReader world.Reader // the reader checkDirect is examining (the classifier of known findings asks the same one)
 	twin    *world.World // C11: same routes and options, fox's built-in special handlers
 	// C11: the connection of the previous unserved request and the Allow header it held when ServeHTTP returned
 	prevConn  *world.Conn
@@ -200,6 +201,8 @@ func sameDirect(o world.RouteObs, m model.MatchResult, withParams bool) bool {
 // parameters (or no direct match).
 func (rr *routingRun) checkDirect(p world.Probe, rd world.Reader, where string) {
 	res := rr.res
+	rr.curReader = rd
+	defer func() { rr.curReader = nil }()
 	a, b, amb := rr.matchBoth(p, p.Path)
 	res.Checks++
 	if a.Backtracks > 0 {
@@ -292,7 +295,38 @@ func (rr *routingRun) findByTag(tag int) *model.Route {
 	return nil
 }
 
+// starSegmentFinding recognises the known finding C01/star-segment-prefers-catch-all: the request has a segment that
+// begins with '*', and fox answers with a route whose catch-all captured text beginning with that '*' although the
+// documented order (static, then parameter, then catch-all) selects another route. Nothing else is covered by it.
+func (rr *routingRun) starSegmentFinding(p world.Probe) bool {
+	if !strings.Contains(p.Path, "/*") {
+		return false
+	}
+	var rd world.Reader = rr.w.R
+	if rr.curReader != nil {
+		rd = rr.curReader
+	}
+	lk := world.ObsLookup(rd, p)
+	if lk.Tag < 0 || lk.TSR {
+		return false
+	}
+	r := rr.findByTag(lk.Tag)
+	if r == nil {
+		return false
+	}
+	for _, pr := range lk.Params {
+		if strings.HasPrefix(pr.Value, "*") && strings.Contains(r.Pattern, "*{"+pr.Key+"}") {
+			return true
+		}
+	}
+	return false
+}
+
 func (rr *routingRun) mismatch(entry string, p world.Probe, where, got, want string) {
+	if rr.f.prop == "C01" && rr.starSegmentFinding(p) {
+		rr.res.known("C01/star-segment-prefers-catch-all", fmt.Sprintf("%s: %s %v = %s, documented rules select %s; routes: %s", where, entry, p, got, want, setString(rr.set, p.Method)))
+		return
+	}
 	rr.res.fail(rr.f.prop+"/wrong-route", "%s: %s %v = %s, documented rules select %s; routes: %s", where, entry, p, got, want, setString(rr.set, p.Method))
 }
 
@@ -318,7 +352,7 @@ func (rr *routingRun) describe() {
 func init() {
 	register(&Prop{
 		ID: "C01", Level: "exploration",
-		Rule: "one case = a router whose tree was shaped by a seeded mutation history (inserts, updates, deletes, truncations, committed and aborted transactions, copy cache capacity drawn) over a pool of 3-13 patterns built by extending and mutating earlier entries (shared prefixes, same wildcard names at the same positions, full- and mid-segment parameters, suffix and infix catch-alls, hostnames, optional 56-sibling fan-out), probed in batches between mutation steps with requests derived from the pool (instantiated patterns, perturbed); every probe goes through Lookup (route, parameters), Reverse, Iter.Reverse and ServeHTTP (handler identity and Context.Params), on the router, on read-only transactions and inside open write transactions, with contexts held open to vary pool recycling; the oracle is the reference matcher (uncompressed token trie, depth-first static > parameter > catch-all), the substitution round-trip, and agreement of all entry points. Which slash-adjusted route is offered is judged by C08 only. Non-trivial: at least one probe needed backtracking in the reference matcher and at least 3 probes matched directly; distinct = hash of (final set, probes).",
+		Rule: "one case = a router whose tree was shaped by a seeded mutation history (inserts, updates, deletes, truncations, committed and aborted transactions, copy cache capacity drawn) over a pool of 3-13 patterns built by extending and mutating earlier entries (shared prefixes, same wildcard names at the same positions, full- and mid-segment parameters, suffix and infix catch-alls, hostnames, optional 56-sibling fan-out), probed in batches between mutation steps with requests derived from the pool (instantiated patterns, perturbed); every probe goes through Lookup (route, parameters), Reverse, Iter.Reverse and ServeHTTP (handler identity and Context.Params), on the router, on read-only transactions and inside open write transactions, with contexts held open to vary pool recycling; the oracle is the reference matcher (uncompressed token trie, depth-first static > parameter > catch-all), the substitution round-trip, and agreement of all entry points. Which slash-adjusted route is offered is judged by C08 only. One probe in ten has a segment prefixed with '*' or '{' (plain text in a request); the deviation this exposes - the catch-all child tried before the parameter child for a segment beginning with '*' - is the known finding C01/star-segment-prefers-catch-all, recognised by a structural predicate and reported as KNOWN-FINDING. Non-trivial: at least one probe needed backtracking in the reference matcher and at least 3 probes matched directly; distinct = hash of (final set, probes).",
 		Run:  runC01, Quick: 64000, Thorough: 12800000,
 		Real: commonReal, Stub: commonStub,
 		Tolerances: []string{"leading_slash_capture: where a mid-segment catch-all could capture a value starting with '/' (README allows it for a suffix catch-all, the property statement speaks of non-empty segments) both answers are accepted and counted"},
@@ -353,6 +387,18 @@ func runC01(src sim.Source, o Opts) *Result {
 				oh, _ := world.Instantiate(src, rr.pool[src.Intn("op", len(rr.pool))])
 				p.Host, _ = hostVariants(src, p.Host, oh)
 				res.inc("probes_with_near_miss_host")
+			}
+			if src.Intn("starsegment", 10) == 9 {
+				// a request segment that begins with '*' (or '{'): plain text for a request - the markers only mean
+				// something in patterns - so a {param} takes it like any other segment, before a catch-all does
+				if segs := strings.Split(p.Path, "/"); len(segs) > 1 {
+					k := 1 + src.Intn("starsegmentat", len(segs)-1)
+					if segs[k] != "" {
+						segs[k] = sim.Pick(src, "starsegmentmark", []string{"*", "*", "{"}) + segs[k]
+						p.Path = strings.Join(segs, "/")
+						res.inc("probes_with_a_segment_starting_with_a_wildcard_marker")
+					}
+				}
 			}
 			probeKeys = append(probeKeys, fmt.Sprint(p))
 			where := fmt.Sprintf("round %d", r)
